@@ -57,6 +57,78 @@ def rule_a(ctx):
         raise AnchorLost("construction of the delivery state (initial value of the closed flag)")
 
 
+def rule_f(ctx):
+    """the async adapters' readiness callbacks keep poll_signal's contract: `false` ("nothing to read, come back when woken") is answered only
+    when the reactor's poll_read returned Pending — i.e. a waker is armed — and a Ready outcome never maps to the constant `false`.
+    (poll_signal answers Pending after a `false`; with no waker armed the task sleeps for ever, also through a later close().)"""
+    F = ctx.F
+    rid = "C11.f"
+    ctx.rule(rid, "async adapters: the readiness callback answers Ok(false) exactly on Poll::Pending of the underlying poll_read (waker armed); "
+                  "Poll::Ready never maps to the constant false", floor=2)
+    from .. import inline
+    from ..conds import switch_edges
+    from ..flow import infeasible
+    n_cb = 0
+    for i in F.inst:
+        if not (i.local and i.body is not None and i.crate in ("signal_hook_tokio", "signal_hook_async_std")):
+            continue
+        if not i.local_ty(0).startswith("core::result::Result<bool,"):
+            continue
+        n = inline.cached(F, i, keep=lambda c: False, tag="c11f", hof=True, thread=True)
+        reads = [(bb, t) for bb, t in n.calls() if re.search(r"::poll_read$", (t.get("def") or "")) and not n.blocks[bb].get("dead")]
+        if len(reads) != 1:
+            continue
+        n_cb += 1
+        ctx.fn(i)
+        rb, rt = reads[0]
+        pend, ready = set(), set()
+        for (b2, tgt, lab, exprs, t2) in switch_edges(n):
+            ex = [deep_strip(e) for e in exprs]
+            if not ex or not all(e[0] == "discr" and deep_strip(e[1])[0] == "call" and deep_strip(e[1])[1] == rb for e in ex):
+                continue
+            vals = [v for v, _ in t2["vals"]]
+            is_pending = lab == "sw:1" or (not lab.startswith("sw:") and 1 not in vals)
+            (pend if is_pending else ready).add((b2, tgt))
+        key = keyname(i.name)
+        if not pend or not ready:
+            ctx.bad(rid, "callback:%s" % key, "the outcome of poll_read is not distinguished (Pending vs Ready)", rt["sp"]); continue
+
+        def returns(cut):
+            n2 = inline.assuming(F, n, cut)
+            fl2 = flow(n2)
+            live = cfg.reachable(n2, 0, unwind=False)
+            return [deep_strip(e) for x in n2.exits() if x in live and not n2.blocks[x].get("dead")
+                    for e in fl2.place({"l": 0, "p": []}, (x, len(n2.stmts(x)))) if not infeasible(e)]
+
+        def ok_const(e):
+            """Ok(<constant bool>) -> 0/1, else None"""
+            if e[0] == "agg" and e[1][0] == "adt" and e[1][2] == "Ok" and len(e[2]) == 1:
+                return fold(e[2][0])
+            return None
+        on_pending = returns(ready)          # Ready edges assumed away
+        on_ready = returns(pend)
+        ctx.check(bool(on_pending) and all(ok_const(e) == 0 for e in on_pending), rid, "callback:%s:pending-is-false" % key,
+                  "Poll::Pending (waker armed) is reported as Ok(false)", rt["sp"], [show(e)[:80] for e in on_pending][:4])
+        def bad_count_test(e):
+            """Ok(<count> cmp k) that is false for a count of 1 (`> 1`, `== 0`, ..): one byte read must count as readable"""
+            if not (e[0] == "agg" and e[1][0] == "adt" and e[1][2] == "Ok" and len(e[2]) == 1):
+                return False
+            c = deep_strip(e[2][0])
+            if c[0] != "binop" or c[1] not in ("Gt", "Ge", "Lt", "Le", "Eq", "Ne"):
+                return False
+            k = fold(c[3]); op = c[1]
+            if k is None:
+                k = fold(c[2]); op = {"Gt": "Lt", "Lt": "Gt", "Ge": "Le", "Le": "Ge"}.get(op, op)
+            if k is None:
+                return False
+            one = {"Gt": 1 > k, "Ge": 1 >= k, "Lt": 1 < k, "Le": 1 <= k, "Eq": 1 == k, "Ne": 1 != k}[op]
+            return not one
+        ctx.check(bool(on_ready) and not any(ok_const(e) == 0 or bad_count_test(e) for e in on_ready), rid, "callback:%s:ready-is-not-false" % key,
+                  "Poll::Ready (no waker armed) is never reported as Ok(false): not as a constant, and a byte count of 1 tests as readable", rt["sp"], [show(e)[:80] for e in on_ready][:4])
+    if n_cb < 2:
+        raise AnchorLost("readiness callbacks of the tokio / async-std adapters (functions returning Result<bool, _> around one poll_read): found %d" % n_cb)
+
+
 def rule_b(ctx):
     F = ctx.F
     rid = "C11.b"
@@ -222,5 +294,6 @@ def run(ctx):
     ctx.guarded("C11.b", rule_b)
     ctx.guarded("C11.c", rule_c)
     ctx.guarded("C11.d", rule_d)
+    ctx.guarded("C11.f", rule_f)
     ctx.note("not decided: liveness under all schedules (that the wake-up byte is actually delivered by the kernel); the runtime's waker contract")
-    ctx.assume("a readiness callback that answers Ok(false) has armed a wake-up (contract of the async adapters' poll_read)")
+    ctx.assume("a poll_read that returned Poll::Pending has armed a wake-up (contract of the async runtimes); C11.f checks that the adapters answer Ok(false) only then")
